@@ -45,44 +45,88 @@ def rule_tiling(ctx, repo):
         return
     pol = src(f.g.data(t[0])["ast"].test).strip() == "not collate"
     branches = {"contiguous": "true" if pol else "false", "collated": "false" if pol else "true"}
+    kk = sp.Symbol("k", integer=True)
+
+    def progression(x, ren2):
+        """(element(k), count) of an index-array expression built from np.arange, + and * with scalars"""
+        if isinstance(x, ast.Call) and dotted(x.func) == "np.arange" and not x.keywords:
+            ar = [to_sympy(y, ren2) for y in x.args]
+            if len(ar) == 1:
+                return kk, ar[0], None
+            st = ar[2] if len(ar) > 2 else sp.Integer(1)
+            return ar[0] + st * kk, sp.ceiling((ar[1] - ar[0]) / st), ar[1]
+        if isinstance(x, ast.BinOp) and isinstance(x.op, (ast.Add, ast.Mult, ast.Sub)):
+            for arr, sc, arr_left in ((x.left, x.right, True), (x.right, x.left, False)):
+                try:
+                    el, cnt, stop = progression(arr, ren2)
+                except PyExprError:
+                    continue
+                c = to_sympy(sc, ren2)
+                if isinstance(x.op, ast.Add):
+                    return el + c, cnt, None
+                if isinstance(x.op, ast.Mult):
+                    return el * c, cnt, None
+                if arr_left:
+                    return el - c, cnt, None
+                return c - el, cnt, None
+        raise PyExprError("not an arithmetic progression: %s" % src(x))
+
     for layout, lab in branches.items():
-        calls = []
+        apps = []
         for n in f.g.nodes():
             if f.g.data(n)["kind"] == "stmt" and f.g.guarded_by(n, t[0], lab):
-                for c in calls_in(f.g.data(n)["ast"]):
-                    if dotted(c.func) == "np.arange":
-                        calls.append((n, c))
+                m_ = Q.match("$o.append($x)", f.g.data(n)["ast"])
+                if m_:
+                    apps.append((n, m_["x"]))
         loopvar = None
         for lp, e in Q.loops(fn, "range(nvar)", "$k"):
             loopvar = src(e["k"])
-        if len(calls) != 1 or loopvar is None:
-            ctx.undecided("C10.tiling", "request_address/%s" % layout, "np.arange allocation not recognised", f.W())
+        if len(apps) != 1 or loopvar is None:
+            ctx.undecided("C10.tiling", "request_address/%s" % layout, "block allocation `out.append(<index array>)` in a loop over range(nvar) not recognised", f.W())
             continue
-        n, c = calls[0]
+        n, x = apps[0]
         ren2 = dict(ren)
         ren2[loopvar] = i
         try:
-            args = [to_sympy(x, ren2) for x in c.args]
+            el, cnt, stop = progression(x, ren2)
         except PyExprError as ex:
             ctx.undecided("C10.tiling", "request_address/%s" % layout, "front-end: %s" % ex, f.W(n))
             continue
-        start, stop = args[0], args[1]
-        step = args[2] if len(args) > 2 else sp.Integer(1)
         end = begin + nd * nv
+        start = el.subs(kk, 0)
+        step = sp.expand(el.subs(kk, 1) - start)
         if layout == "contiguous":
             obl = {"start(0) = begin": sp.expand(start.subs(i, 0) - begin),
-                   "start(i+1) = stop(i)": sp.expand(start.subs(i, i + 1) - stop),
-                   "stop(nvar-1) = end": sp.expand(stop.subs(i, nv - 1) - end),
+                   "start(i+1) = start(i) + ndevice": sp.expand(start.subs(i, i + 1) - start - nd),
                    "step = 1": sp.expand(step - 1),
-                   "block length = ndevice": sp.expand(stop - start - nd)}
+                   "block length = ndevice": sp.expand((stop - start - nd) if stop is not None else (cnt - nd))}
         else:
             obl = {"start(i) = begin + i": sp.expand(start - begin - i),
                    "step = nvar": sp.expand(step - nv),
-                   "stop = end": sp.expand(stop - end)}
-        bad = {k: v for k, v in obl.items() if v != 0}
-        ctx.check(not bad, "C10.tiling", "request_address/%s" % layout,
-                  "blocks tile [begin, begin + ndevice*nvar): " + "; ".join(obl),
-                  "address blocks do not tile the requested range: " + "; ".join("%s fails by %s" % kv for kv in bad.items()), f.W(n))
+                   "ndevice elements": sp.expand((stop - end) if stop is not None else (cnt - nd))}
+        bad = {k_: v for k_, v in obl.items() if v != 0}
+        if not bad:
+            ctx.ok("C10.tiling", "request_address/%s" % layout, "blocks tile [begin, begin + ndevice*nvar): " + "; ".join(obl), f.W(n))
+            continue
+        # the obligations are sufficient, not necessary: a violation needs a concrete (ndevice, nvar, begin) whose blocks do not
+        # partition the requested range
+        witness = None
+        for ndv in range(1, 5):
+            for nvv in range(1, 5):
+                for b0 in (0, 3):
+                    got = []
+                    for iv in range(nvv):
+                        sub = {nd: ndv, nv: nvv, begin: b0, i: iv}
+                        c_ = int(cnt.subs(sub))
+                        got += [int(el.subs(sub).subs(kk, j)) for j in range(max(c_, 0))]
+                    if sorted(got) != list(range(b0, b0 + ndv * nvv)) and witness is None:
+                        witness = "ndevice=%d nvar=%d begin=%d gives addresses %s, requested range is [%d, %d)" % (
+                            ndv, nvv, b0, got, b0, b0 + ndv * nvv)
+        if witness:
+            ctx.violation("C10.tiling", "request_address/%s" % layout, "address blocks do not tile the requested range (%s): %s" % (
+                "; ".join("%s fails by %s" % kv for kv in bad.items()), witness), f.W(n))
+        else:
+            ctx.undecided("C10.tiling", "request_address/%s" % layout, "unrecognised but not refuted layout: " + "; ".join(bad), f.W(n))
     # the counter is advanced to end, after the blocks were cut from the old value
     adv = [n for n in f.g.nodes() if f.g.data(n)["kind"] == "stmt" and Q.match("self.__dict__[$c] = %s" % ename, f.g.data(n)["ast"])]
     ok = bool(adv) and f.after([t[0]], adv)[0]
